@@ -44,6 +44,7 @@ func init() {
 			{Name: "comments", Run: runComments},
 			{Name: "literals", Run: runLiterals},
 			{Name: "lexerrors", Run: runLexErrors},
+			{Name: "regexmode", Run: runRegexMode},
 			{Name: "earlyerrors", Run: runEarlyErrors},
 		},
 		Assumptions: []string{
@@ -73,6 +74,7 @@ func init() {
 		// the source-map error (not an ErrorList) is returned by ParseFile and by Run
 		return m.Expected == "*parser.ErrorList" && !strings.Contains(m.Observed, "ErrorList")
 	})
+	engine.RegisterSignature("c04-ignore-regexp-errors-skips-validation", sigIgnoreRegExpErrors)
 	engine.RegisterSignature("c04-idx-empty-list", sigIdxEmptyList)
 	engine.RegisterSignature("c04-walk-typed-nil", sigWalkTypedNil)
 	engine.RegisterSignature("c04-silent-bad-node", sigSilentBadNode)
@@ -87,7 +89,7 @@ func init() {
 // It covers the acceptance itself and, for the same input, spans that lie
 // outside the file / the parent (a tree that should not exist).
 func explains(m *engine.Mismatch, item string) bool {
-	if m.Aux["explain"] == "" {
+	if m.Aux["explain"] == "" || m.Aux["mode"] != "" {
 		return false
 	}
 	switch {
@@ -168,14 +170,14 @@ type parseResult struct {
 	panicVal string
 }
 
-func guardedParse(src string) (res parseResult) {
+func guardedParse(src string, mode parser.Mode) (res parseResult) {
 	defer func() {
 		if p := recover(); p != nil {
 			res.panicked = true
 			res.panicVal = fmt.Sprint(p)
 		}
 	}()
-	res.prog, res.err = parser.ParseFile(nil, "", src, 0)
+	res.prog, res.err = parser.ParseFile(nil, "", src, mode)
 	return
 }
 
@@ -192,6 +194,8 @@ type harness struct {
 	stats    struct{ accepted, rejected, refConsulted, refRejected, nodes int }
 	classes  map[string]*classStat
 	explain  string // explanation of the current case's wrongful acceptance, if any
+	// mode is the parser.Mode of ParseFile; 0 (the mode of Otto.Run) except in the regexmode family.
+	mode parser.Mode
 }
 
 type classStat struct {
@@ -309,7 +313,7 @@ func (h *harness) one(key, src string) {
 	// runtime: neither may hang.
 	r.Begin(key)
 	defer r.End()
-	res := guardedParse(src)
+	res := guardedParse(src, h.mode)
 	nontrivial := false
 	outcome := ""
 	switch {
@@ -320,7 +324,9 @@ func (h *harness) one(key, src string) {
 		outcome = "reject: " + res.err.Error()
 		h.stats.rejected++
 		nontrivial = h.positions(key, src, res.err)
-		h.noEffect(key, src)
+		if h.mode == 0 { // Run always parses in mode 0
+			h.noEffect(key, src)
+		}
 	default:
 		outcome = "accept"
 		h.stats.accepted++
@@ -332,6 +338,9 @@ func (h *harness) one(key, src string) {
 			h.stats.refRejected++
 			aux := map[string]string{}
 			note := ref.Err.Error()
+			if h.mode != 0 {
+				aux["mode"] = fmt.Sprint(uint(h.mode))
+			}
 			if expl = explain(src); expl != "" {
 				aux["explain"] = expl
 				note += "; accepted by the reference under " + expl
@@ -701,6 +710,18 @@ func (r *recorder) Exit(n ast.Node) {
 	if isNilNode(top) != isNilNode(n) || !isNilNode(n) && top != n {
 		r.unbalanced = fmt.Sprintf("Exit(%T) does not match Enter(%T)", n, top)
 	}
+}
+
+var reIncompatible = regexp.MustCompile(`\(\?[=!]|\\[1-9]`)
+
+// sigIgnoreRegExpErrors: under parser.IgnoreRegExpErrors a pattern that
+// contains a look-ahead or a back-reference (what TransformRegExp calls an
+// RE2 compatibility error) is not validated at all: the only reason the
+// reference rejects the text is the regexp body.
+func sigIgnoreRegExpErrors(m *engine.Mismatch) bool {
+	src, ok := m.Input.(string)
+	return ok && m.Expected == "reject" && m.Observed == "accept" && m.Aux["mode"] == fmt.Sprint(uint(parser.IgnoreRegExpErrors)) &&
+		m.Aux["explain"] == "regex-body" && reIncompatible.MatchString(src)
 }
 
 // sigIdxEmptyList: Idx0/Idx1 of a node whose span is derived from a child
